@@ -8,7 +8,7 @@
    for every run by the driver, which compares the whole table). *)
 From Common Require Import Bytes Outcome Blake2b.
 From TrieCodec Require Import Codec View Db ProofsBasic ProofsDecode ProofsDb ProofsWrite.
-From C04 Require Import Model Proofs.
+From C04 Require Import Model Proofs Examples.
 Local Open Scope N_scope.
 
 (* Reload: if the database holds what the trie t needs (every non-inlined node under its hash, every
@@ -74,45 +74,15 @@ Theorem C04_blake2b_length : forall m, length (blake2b_256 m) = 32%nat.
 Proof. exact blake2b_256_length. Qed.
 Print Assumptions C04_blake2b_length.
 
-(* ------------------------------------------------------------------ non-vacuity and refutations *)
-Definition nib (l : list N) : list byte := map n2b l.
-Definition v33 : list byte := repeat (n2b 7) 33.
-Definition v33' : list byte := repeat (n2b 9) 33.
-
-(* a V1 leaf whose value is hashed *)
-Definition ex_hashed : wnode := WN (nib [1; 15; 1; 0]) (Some v33) true true [].
-(* 0xab1f, 0x1f10, 0x1f10a012: child 1 of the root is an inlined branch *)
-Definition at_ (i : nat) (c : wnode) (l : list (option wnode)) : list (option wnode) :=
-  firstn i l ++ Some c :: skipn (S i) l.
-Definition none16 : list (option wnode) := repeat None 16.
-Definition ex_inlined : wnode :=
-  WN [] None false true
-     (at_ 1 (WN (nib [15; 1; 0]) (Some (nib [101; 168])) false true
-                (at_ 10 (WN (nib [0; 1; 2]) (Some (nib [83; 105])) false true []) none16))
-      (at_ 10 (WN (nib [11; 1; 15]) (Some (nib [240])) false true []) none16)).
-(* 0x1234 and 0x1235 with 33-byte values: the root branch has the partial key 1,2,3 *)
-Definition ex_diverge : wnode :=
-  WN (nib [1; 2; 3]) None false true
-     (at_ 4 (WN [] (Some v33) false true []) (at_ 5 (WN [] (Some v33') false true []) none16)).
-(* 0x1f and 0x1f1101: the root branch has the partial key 1,f and a value *)
-Definition ex_exhaust : wnode :=
-  WN (nib [1; 15]) (Some (nib [130; 185])) false true
-     (at_ 1 (WN (nib [1; 0; 1]) (Some (nib [66; 49])) false true []) none16).
-
-Definition db_of (w : wnode) : db := fst (write_dirty_node blake2b_256 true [] w).
-Definition root_of (w : wnode) : list byte := blake2b_256 (encode blake2b_256 (erase w)).
-
+(* ------------------------------------------------------------------ non-vacuity and refutations
+   (the tries ex_* and their evaluation are in Examples.v) *)
 Example C04_nonvacuous :
      wf_node (erase ex_hashed) = true /\ wf_node (erase ex_inlined) = true
   /\ has (db_of ex_hashed) (needs blake2b_256 true (erase ex_hashed))
   /\ length (needs blake2b_256 true (erase ex_hashed)) = 2%nat
   /\ load blake2b_256 (false, false) true 3 (db_of ex_inlined) (root_of ex_inlined) = Ok (Some (erase ex_inlined))
   /\ get_from_db_fixed blake2b_256 (false, false) true (db_of ex_hashed) (root_of ex_hashed) (nib [31; 16]) = Ok (Some v33).
-Proof.
-  split; [vm_compute; reflexivity|]. split; [vm_compute; reflexivity|].
-  split; [repeat (constructor; [vm_compute; reflexivity|]); constructor|].
-  split; [vm_compute; reflexivity|]. split; vm_compute; reflexivity.
-Qed.
+Proof. exact C04_nonvacuous_holds. Qed.
 
 (* GetFromDB of the pinned tree: (1) returns the 32-byte hash of a hashed value, (2) fails on a key
    below an inlined branch, (3) returns the value of 0x1234 for the absent key 0x14, (4) returns the
@@ -130,7 +100,7 @@ Theorem C04_point_read_pinned_refuted :
   /\ get_from_db_pinned blake2b_256 (false, false) true (db_of ex_exhaust) (root_of ex_exhaust) []
      = Ok (Some (nib [130; 185]))
   /\ lookup (erase ex_exhaust) (nibbles_of_bytes []) = None.
-Proof. repeat split; vm_compute; reflexivity. Qed.
+Proof. exact C04_point_read_pinned_refuted_holds. Qed.
 Print Assumptions C04_point_read_pinned_refuted.
 
 (* WriteDirty of the pinned tree does not write the child tries when the root of the parent trie is
@@ -141,5 +111,6 @@ Theorem C04_write_dirty_pinned_refuted :
      db_get (write_dirty_pinned blake2b_256 [] (Some parent) [child]) (root_of child) = None
   /\ db_get (write_dirty_fixed blake2b_256 [] (Some parent) [child]) (root_of child)
      = Some (encode blake2b_256 (erase child)).
-Proof. split; vm_compute; reflexivity. Qed.
+Proof. exact C04_write_dirty_pinned_refuted_holds. Qed.
 Print Assumptions C04_write_dirty_pinned_refuted.
+
